@@ -134,8 +134,8 @@ def complete_aam(graph: nx.Graph, offset: None | int | str = None):
     mappings = [d[AAM_KEY] for _, d in graph.nodes(data=True) if AAM_KEY in d]
     next_mapping = 1
     if offset is not None:
-        if isinstance(offset, int):
-            next_mapping = offset
+        if isinstance(offset, (int, np.integer)):
+            next_mapping = int(offset)
         elif offset == "min":
             if len(mappings) > 0:
                 next_mapping = int(np.min(mappings))
